@@ -302,8 +302,11 @@ impl Context {
             let mut parent = task.parent();
             while let Some(p) = parent {
                 if p.is_kind(NodeKind::Step) || p.is_kind(NodeKind::Act) {
-                    p.set_state(TaskState::Backed);
-                    self.emit_task(&p)?;
+                    // a hook act can be open beneath a task that has already ended: that task keeps its state
+                    if !p.state().is_completed() {
+                        p.set_state(TaskState::Backed);
+                        self.emit_task(&p)?;
+                    }
                     break;
                 }
                 parent = p.parent();
@@ -342,9 +345,12 @@ impl Context {
         let ctx = self;
         let mut parent = task.parent();
         while let Some(task) = parent {
-            task.set_state(TaskState::Aborted);
-            ctx.set_task(&task);
-            ctx.emit_task(&ctx.task())?;
+            // a hook act can be open beneath a task that has already ended: that task keeps its state
+            if !task.state().is_completed() {
+                task.set_state(TaskState::Aborted);
+                ctx.set_task(&task);
+                ctx.emit_task(&ctx.task())?;
+            }
 
             // close whatever is still open below the aborted task, however deep and in whatever open state
             let mut children = task.children();
@@ -407,9 +413,16 @@ impl Context {
             // after emitting, re-check the task state
             if task.state().is_error() {
                 if let Some(err) = task.err() {
-                    if let Some(parent) = task.parent() {
-                        parent.set_err(&err);
-                        return parent.error(self);
+                    // a hook act can fail beneath a task that has already ended: that task keeps its state and
+                    // the error goes on to the nearest task that is still open (or has failed itself: its own
+                    // catch may take this error)
+                    let mut parent = task.parent();
+                    while let Some(p) = parent {
+                        if !p.state().is_completed() || p.state().is_error() {
+                            p.set_err(&err);
+                            return p.error(self);
+                        }
+                        parent = p.parent();
                     }
                 }
             }
